@@ -61,6 +61,7 @@ def check(facts, rep, tier, cfg):
     check_r6_joint(facts, rep, crate, bodies)
     check_r7_initial_state(facts, rep, crate)
     check_r8_read_not_gated_on_flush(facts, rep, bodies)
+    check_r9_flush_before_idle(facts, rep, bodies)
 
 
 def check_r2(facts, rep, bodies):
@@ -515,3 +516,155 @@ def check_r8_read_not_gated_on_flush(facts, rep, bodies):
             else:
                 rep.ok(rid, key, where, "read of `%s` not dominated by a completed flush of `%s`" % (side, side))
     rep.floor(rid, "bridge read sites", k, 2)
+
+
+def _field_of_place(pl):
+    """Name of the (last) struct field a place projects to, or None."""
+    for e in reversed(pl.get("p") or []):
+        if isinstance(e, dict) and "f" in e:
+            return e["f"]
+    return None
+
+
+def _flag_writes(b, tr, field):
+    """(block, kind) for every write of the bool bridge field `field` in b: kind 'set' (const true), 'clear' (const false,
+    mem::take, mem::replace(.., false)) or 'other'."""
+    out = []
+    refs = {}
+    for bi, blk in enumerate(b.blocks):
+        for s in blk["stmts"]:
+            if s["k"] != "Assign":
+                continue
+            if s["rv"]["k"] == "Ref" and s["rv"].get("mut") and _field_of_place(s["rv"]["place"]) == field:
+                refs[s["lhs"]["l"]] = bi
+            if _field_of_place(s["lhs"]) == field and (s["lhs"].get("p") or [None])[-1] == "*" or \
+                    (_field_of_place(s["lhs"]) == field and s["lhs"].get("ty", {}).get("s") == "bool"):
+                ops = s["rv"].get("ops") or []
+                if s["rv"]["k"] == "Use" and ops and ops[0].get("k") == "const":
+                    out.append((bi, "set" if ops[0].get("v") else "clear"))
+                else:
+                    out.append((bi, "other"))
+    for bi, t in b.calls():
+        c = callee(t)
+        if not c or c["name"] not in ("take", "replace", "swap") or "mem::" not in c["path"]:
+            continue
+        a0 = t["args"][0] if t["args"] else None
+        if a0 and a0.get("k") in ("move", "copy") and a0["p"]["l"] in refs and not a0["p"].get("p"):
+            if c["name"] == "take":
+                out.append((bi, "clear"))
+            elif c["name"] == "replace" and len(t["args"]) > 1 and t["args"][1].get("k") == "const":
+                out.append((bi, "set" if t["args"][1].get("v") else "clear"))
+            else:
+                out.append((bi, "other"))
+    return out
+
+
+def check_r9_flush_before_idle(facts, rep, bodies):
+    rid = "C13.R9"
+    rep.rule(rid, "mux->local: when the stream has nothing more to relay (poll_fill_buf of the mux side is Pending) the bridge returns "
+                  "Pending only after poll_flush of the local side (so relayed bytes never sit in the local writer's buffer waiting for "
+                  "unrelated traffic); a flush skipped under a dirty flag is accepted only if the flag is cleared after a completed flush "
+                  "and set after every write to the local side")
+    k = 0
+    for b in bodies:
+        tr = Tracer(facts, b)
+        flushes = [bi for bi, t in b.calls() if callee(t) and callee(t)["name"] == "poll_flush" and t["args"] and _side(tr, t["args"][0]) == "other"]
+        rets = [x for x in range(len(b.blocks)) if b.term(x)["k"] == "Return"]
+        for bi, t in b.calls():
+            c = callee(t)
+            if not c or c["name"] != "poll_fill_buf" or not t["args"] or _side(tr, t["args"][0]) != "us":
+                continue
+            # Pending edges of switches on this call's result
+            pend = []
+            for gb in range(len(b.blocks)):
+                if b.term(gb)["k"] != "SwitchInt":
+                    continue
+                g = guard_at(facts, b, tr, gb)
+                if g is None or g.kind != "discr" or not (g.adt or "").endswith("poll::Poll"):
+                    continue
+                root = strip(g.pred)
+                if root.kind != "call" or root[4] != bi:      # the poll result itself, not a later poll that merely uses its value
+                    continue
+                pend += [sb for sb, v in g.edges if v == "Pending"]
+            if not pend:
+                continue
+            k += 1
+            where = "%s (%s)" % (loc_str(t["loc"]), b.path)
+            key = "%s/idle-after-flush" % b.path.split("::{")[0]
+            escaping = [p0 for p0 in pend if any(r in b.reachable_from(p0, cut=set(flushes)) for r in rets)]
+            if not escaping:
+                rep.ok(rid, key, where, "every return after the mux side's Pending passes poll_flush of the local side")
+                continue
+            # dirty-flag idiom: the flush-free paths all leave through the 'clean' edge of a test of one bool field
+            accepted = None
+            why = "no poll_flush of the local side on a path from the mux side's Pending to the return"
+            for gb in range(len(b.blocks)):
+                if b.term(gb)["k"] != "SwitchInt" or not any(gb in b.reachable_from(p0, cut=set(flushes)) or gb == p0 for p0 in escaping):
+                    continue
+                g = guard_at(facts, b, tr, gb)
+                if g is None or g.kind != "bool":
+                    continue
+                flds = [x[2] for x in walk(g.pred) if x.kind == "field" and x[2] not in ("us", "other")]
+                if not flds:
+                    continue
+                fld = flds[0]
+                clean = [sb for sb, v in g.edges if v is False]
+                if not clean:
+                    continue
+                if any(r in b.reachable_from(p0, cut=set(flushes) | set(clean)) for p0 in escaping for r in rets):
+                    continue
+                # the flag discipline, over all bridge bodies
+                bad = None
+                for b2 in bodies:
+                    tr2 = tr if b2 is b else Tracer(facts, b2)
+                    fl2 = {x: _side(tr2, tt["args"][0]) for x, tt in b2.calls() if callee(tt) and callee(tt)["name"] == "poll_flush" and tt["args"]}
+                    wr2 = [x for x, tt in b2.calls() if callee(tt) and callee(tt)["name"] in ("poll_write", "poll_write_vectored") and tt["args"] and _side(tr2, tt["args"][0]) == "other"]
+                    writes = _flag_writes(b2, tr2, fld)
+                    sets = set(x for x, kd in writes if kd == "set")
+
+                    def want(gg):
+                        if gg.kind == "discr" and (gg.adt or "").endswith("poll::Poll"):
+                            for fb, fs in fl2.items():
+                                if fs == "other" and derives_from_call(gg.pred, fb):
+                                    return {"Ready"}
+                        return None
+                    for x, kd in writes:
+                        if kd == "other":
+                            bad = (b2, x, "the flag `%s` is written with a value the analysis cannot read" % fld)
+                        elif kd == "clear" and not edge_literals_dominating(facts, b2, tr2, x, want):
+                            bad = (b2, x, "the flag `%s` is cleared before poll_flush of the local side has returned Ready: if that flush is "
+                                          "Pending (or fails) it is never retried and the relayed bytes stay in the local writer's buffer" % fld)
+                    rets2 = [x for x in range(len(b2.blocks)) if b2.term(x)["k"] == "Return"]
+                    for w in wr2:
+                        # Ready edge of the write must reach a set before any return
+                        for gb2 in range(len(b2.blocks)):
+                            if b2.term(gb2)["k"] != "SwitchInt":
+                                continue
+                            g2 = guard_at(facts, b2, tr2, gb2)
+                            if g2 is None or g2.kind != "discr" or not (g2.adt or "").endswith("poll::Poll"):
+                                continue
+                            r2 = strip(g2.pred)
+                            if r2.kind != "call" or r2[4] != w:
+                                continue
+                            for sb, v in g2.edges:
+                                if v == "Ready" and any(r in b2.reachable_from(sb, cut=sets) for r in rets2) and sb not in sets:
+                                    # error returns after a failed write are fine: only the Ok continuation matters; approximate by
+                                    # requiring a set on the path to the *next* read of the mux side or a non-error return
+                                    nxt = [x for x, tt in b2.calls() if callee(tt) and callee(tt)["name"] == "poll_fill_buf"]
+                                    if any(n in b2.reachable_from(sb, cut=sets) for n in nxt):
+                                        bad = bad or (b2, w, "after a write to the local side the flag `%s` is not set on every path: those bytes are never flushed" % fld)
+                    if bad:
+                        break
+                if bad:
+                    why = bad[2]
+                    where = "%s (%s)" % (loc_str(bad[0].term(bad[1])["loc"]), bad[0].path)
+                else:
+                    accepted = fld
+                break
+            if accepted:
+                rep.ok(rid, key, where, "flush skipped only while the dirty flag `%s` is clear; the flag is cleared after a completed flush and set after every write" % accepted)
+            else:
+                rep.bad(rid, key, where,
+                        "the bridge can go idle (return Pending because the mux side has nothing more to relay) without a completed poll_flush "
+                        "of the local side: %s. Bytes the peer sent stay in a buffering local writer until unrelated traffic arrives" % why)
+    rep.floor(rid, "mux-side reads whose Pending leads to the bridge going idle", k, 1)
